@@ -238,6 +238,7 @@ def generate_symbol(
     macro_definitions: MacroDefinitions,
     file_info: Token,
 ) -> GenNodes:
+    resolver.current_scope.declare(node.symbol)
     return [SymbolNode(node.symbol, node.value, resolver)]
 
 
@@ -259,6 +260,7 @@ def generate_label(
     macro_definitions: MacroDefinitions,
     file_info: Token,
 ) -> GenNodes:
+    resolver.current_scope.declare(node.label)
     return [LabelNode(node.label, resolver)]
 
 
@@ -392,6 +394,7 @@ def generate_macro_application(
         evaluated = evaluated_args[index]
         if evaluated is None:
             # defer the resolve to the emit part.
+            resolver.current_scope.declare(arg)
             code.append(CallSiteSymbolNode(arg, macro_args_values[index], resolver))
         else:
             resolver.current_scope.add_symbol(arg, evaluated)
